@@ -259,6 +259,17 @@ Example C14_clean_nonvacuous :
   hidden_name ex_libsql = true /\ hidden_name ex_sqlitedb = true.
 Proof. vm_compute. repeat split. Qed.
 
+(* Snapshot as a whole: its inspection fails on a visible table it cannot parse (also next to
+   bookkeeping), not on a hidden one; bookkeeping only is accepted; a view is "not clean" *)
+Example C14_snapshot_nonvacuous :
+  snapshot [mkObj KTable ex_seq ex_seq 0 true; mkObj KTable ex_t0 ex_t0 0 false] = VInspectErr /\
+  snapshot [mkObj KTable ex_t0 ex_t0 0 true; mkObj KIndex ex_i0 ex_t0 0 false] = VInspectErr /\
+  snapshot [mkObj KTable ex_sqlitedb ex_sqlitedb 0 false] = VNotClean /\
+  snapshot [mkObj KView ex_v0 ex_v0 0 false] = VNotClean /\
+  snapshot [mkObj KTable ex_seq ex_seq 0 true] = VClean /\ snapshot [] = VClean /\
+  prop_clean [mkObj KTable ex_seq ex_seq 0 true] = true.
+Proof. vm_compute. repeat split. Qed.
+
 (* a user database -- also one the inspection cannot see -- is refused, untouched *)
 Example C14_refuse_nonvacuous :
   run_cmd NoNorm (CLint 1) false ex_dir2 SrcNone SrcNone false ([], []) [] ex_user_db = (ORefused, ex_user_db, []) /\
